@@ -37,6 +37,16 @@ class PlaL(Packet):
     tag = Int(1, default=7)
     length = Int(1).describe(AutoLength('a')).at(2)
     a = Data(length)
+class WidG(Packet):
+    length = Int(3).describe(AutoLength('a'))
+    a = Data(length)
+class WidL(Packet):
+    __bisturi__ = {'generate_for_pack': False, 'generate_for_unpack': False}
+    length = Int(3).describe(AutoLength('a'))
+    a = Data(length)
+class FunW(Packet):
+    x = Int(5).describe(Auto(lambda pkt: pkt.t * 2 + 1))
+    t = Int(1)
 class FunA(Packet):
     __bisturi__ = {'align': 2}
     x = Int(1).describe(Auto(lambda pkt: pkt.t * 2 + 1))
@@ -53,7 +63,8 @@ class FunL(Packet):
 
 def run(mod, h):
     cls = getattr(mod, h['cls'])
-    islen = h['cls'].startswith(('Len', 'Emb', 'Pla', 'Ref'))
+    islen = h['cls'].startswith(('Len', 'Emb', 'Pla', 'Ref', 'Wid'))
+    wide = {'WidG': 3, 'WidL': 3, 'FunW': 5}.get(h['cls'], 1)      # the described integer has no struct code (3 / 5 bytes, big endian)
     nested = h['cls'].startswith('Ref')       # the described field lives in a referenced packet whose prototype INSTANCE pins it
     placed = h['cls'].startswith('Pla')       # the described field is positioned: tag, one skipped byte, then the field
     aligned = h['cls'] == 'FunA'              # class-wide alignment 2: x at 0, t at 2
@@ -79,7 +90,7 @@ def run(mod, h):
                     p = cls(**kw)
             elif k == 'unpack':
                 # parsed value op[2] for the described field, tracked value op[1]
-                raw = bytes([op[2]]) + (b'q' * op[2] if islen else ((b'.' if aligned else b'') + bytes([op[1]])))
+                raw = b'\x00' * (wide - 1) + bytes([op[2]]) + (b'q' * op[2] if islen else ((b'.' if aligned else b'') + bytes([op[1]])))
                 if placed:
                     raw = b'\x07.' + raw
                 if nested:
@@ -97,7 +108,7 @@ def run(mod, h):
             elif k == 'del':
                 delattr(p, name)
             elif k == 'pack':
-                w = top.pack()[1] if nested else p.pack()[2 if placed else 0]
+                w = top.pack()[1] if nested else p.pack()[2 if placed else wide - 1]
             out.append(['ok', getattr(p, name), w, hasattr(p, '__dict__')])
         except Exception as e:
             out.append(['exc', type(e).__name__, str(e)[:80]])
